@@ -14,9 +14,9 @@ NOT_APPLICABLE = {
 PENDING_REASON = "check not built yet (work in progress)"
 
 TECHNIQUE = {
-    "C04": "static analysis: the parser's code interpreted abstractly as a machine over line classes (loop fixpoint over all line sequences) with a step-type monitor; structural rules on the keyword table, line-number provenance and the cell-split regex AST",
-    "C05": "static analysis: the parser's code interpreted abstractly as a machine over line classes from every entry point (reachability of internal exceptions, exception class and filename obligations on every exit); structural rules for error line, reset and termination",
-    "C09": "static analysis: abstract evaluation of effective_tags / should_run / should_run_with_tags / add_* / outline builder on tokens (truth tables, provenance, effects) + the Scenario.run and container explorations (typestate monitors) + roll-up fixpoints",
+    "C04": "static analysis: the parser's code interpreted abstractly as a machine over line classes (loop fixpoint over all line sequences) with a step-type monitor; structural rules on the keyword table, line-number provenance, the cell-split regex AST and pending-tag consumption; static constant propagation (the source interpreted on enumerated literal lines, stdlib calls folded) for the doc-string delimiter protocol, cell render/parse agreement and tag lines",
+    "C05": "static analysis: the parser's code interpreted abstractly as a machine over line classes from every entry point (reachability of internal exceptions, exception class and filename obligations on every exit); structural rules for error line, reset and termination; the dangling And/But fault is decided by the same machine exploration",
+    "C09": "static analysis: abstract evaluation of effective_tags / should_run / should_run_with_tags / add_* / outline builder on tokens (truth tables, provenance, effects) + the Scenario.run and container explorations (typestate monitors) + roll-up fixpoints + structural must-follow rule on the parser's pending tags",
     "C01": "static analysis: modular abstract interpretation (path-sensitive, finite domains, loop fixpoints) of Step.run, Scenario.run, ScenarioContainer.run, ScenarioOutline.run, run_model, run_hook, run_behave/main with iff-obligations per level + structural wiring rule",
     "C02": "static analysis: abstract interpretation of Step.run (outcome table) and Scenario.run (typestate monitor over step events), abstract evaluation of the step-iteration code on labelled tokens (order, copies), exception-containment exploration of Matcher.match",
     "C03": "static analysis: truth tables extracted from the Status enum source, decision tables of the mapping functions, loop-fixpoint exploration of the three compute_status roll-ups over all child-status sequences, cache/typestate obligations on every run(), effect rule on reset() chains",
@@ -48,7 +48,7 @@ def main():
             "level_claimed": {
                 "category": "other",
                 "text": ("Static analysis of /repo's current source (nothing is executed): " + mod.EXPLANATION)[:6000],
-                "design_ref": "DESIGN.md section 4, " + pid,
+                "design_ref": "DESIGN.md section 4 (plan) and section 8 (as built), " + pid,
             },
             "level_note": ("Decides necessary structural/abstract-semantic conditions of the property, not the concrete "
                            "behaviour. Not decided: " + mod.NOT_DECIDED + ". Trusted base: the checker's own abstract "
